@@ -27,8 +27,8 @@ impl Property for C07 {
     }
     fn config(&self, tier: Tier) -> PropConfig {
         match tier {
-            Tier::Quick => PropConfig { cases: 24_000, max_tape: 300, shards: 8 },
-            Tier::Thorough => PropConfig { cases: 600_000, max_tape: 500, shards: 16 },
+            Tier::Quick => PropConfig { cases: 200000, max_tape: 300, shards: 12 },
+            Tier::Thorough => PropConfig { cases: 3200000, max_tape: 500, shards: 16 },
         }
     }
     fn run_case(&self, reg: &Registry, shape: usize, tape: &[u8], st: &mut Stats) -> CaseResult {
